@@ -2,6 +2,7 @@
 C15 — todo placeholders and run-time overrides (runtime library modelled: Model/Runtime.lean).
 -/
 import GontainerModel.Model.Runtime
+import GontainerModel.Lemmas.ParamOnce
 import GontainerModel.Generated.Wiring
 namespace GM.C15
 open GM GM.Runtime
@@ -33,8 +34,7 @@ theorem todo_service_errors (f : Nat) (p : Prog) (st : St) (bag : Bag) (id : Str
     ∃ e, (get (f + 1) p st bag id).2.2 = .error e ∧ e = "get(" ++ Val.quoteStr id ++ "): constructor: service todo" := by
   unfold Runtime.get
   simp only [hov, hs]
-  simp only [htodo, ↓reduceIte]
-  cases effScope p st id <;> simp [hsh, hbag]
+  cases effScope p st id <;> simp [hsh, hbag, getBody, htodo]
 
 /-- **overrides win**: after `OverrideParam` the parameter IS the overriding value, whatever it was -/
 theorem override_param_visible (f : Nat) (p : Prog) (st : St) (id : String) (v : RV)
@@ -68,6 +68,47 @@ theorem param_first_use (f : Nat) (p : Prog) (st : St) (id : String) (prm : Outp
   rcases evalRaw f p { st with evalLog := st.evalLog ++ ["param:" ++ id] } prm.raw with ⟨st', r⟩
   cases r <;> rfl
 
+
+/-! ### whole histories of `GetParam` (acyclic reference relation, stated as a rank) -/
+
+/-- **a parameter is evaluated at most once until overridden, and lazily**: across ANY history of `GetParam` calls
+(any ids, any length) on any reachable state, a parameter that has been evaluated keeps its cached value, its provider
+never runs again, and every provider that does run belongs to a parameter that had not been evaluated before -/
+theorem param_evaluated_at_most_once (p : Prog) (rk : String → Nat) (hr : Ranked p rk) (F : Nat) (ops : List String)
+    (st : St) (id : String) (v : RV) (hc : st.pcache.lookup id = some v) :
+    (runParams F p st ops).pcache.lookup id = some v ∧
+    ∃ suf, (runParams F p st ops).evalLog = st.evalLog ++ suf ∧ ("param:" ++ id) ∉ suf ∧
+      ∀ e ∈ suf, ∃ n, e = "param:" ++ n ∧ st.pcache.lookup n = none := by
+  obtain ⟨R, _, _, _, _, _, _, h7, suf, h8, h9⟩ := runParams_inv p rk hr F ops st
+  constructor
+  · rcases h7 id with h | ⟨h, _⟩
+    · rw [h, hc]
+    · rw [hc] at h; cases h
+  · refine ⟨suf, h8, ?_, h9⟩
+    intro hmem
+    obtain ⟨n, hn, hnone⟩ := h9 _ hmem
+    have : id = n := (String.append_right_inj "param:").mp hn
+    subst this
+    rw [hc] at hnone; cases hnone
+
+/-- **parameter evaluation never touches services or overrides**: a history of `GetParam` calls leaves the overriding
+definitions, the shared-service cache, the context bags and the object heap exactly as they were -/
+theorem getParam_frame (p : Prog) (rk : String → Nat) (hr : Ranked p rk) (F : Nat) (ops : List String) (st : St) :
+    (runParams F p st ops).ovParams = st.ovParams ∧ (runParams F p st ops).ovServices = st.ovServices ∧
+    (runParams F p st ops).shared = st.shared ∧ (runParams F p st ops).ctxBags = st.ctxBags ∧
+    (runParams F p st ops).heap = st.heap := by
+  obtain ⟨R, h1, h2, h3, h4, h5, _⟩ := runParams_inv p rk hr F ops st
+  exact ⟨h1, h2, h3, h4, h5⟩
+
+/-- … and a value that IS in the cache answers every later `GetParam` of the history's end state -/
+theorem cached_param_answers (p : Prog) (rk : String → Nat) (hr : Ranked p rk) (F : Nat) (ops : List String)
+    (st : St) (id : String) (v : RV) (prm : Output.Param) (hov : st.ovParams.lookup id = none)
+    (hp : p.out.params.find? (·.name == id) = some prm) (hc : st.pcache.lookup id = some v) :
+    getParam (F + 1) p (runParams F p st ops) id = (runParams F p st ops, .ok v) := by
+  have h := (param_evaluated_at_most_once p rk hr F ops st id v hc).1
+  have hf := (getParam_frame p rk hr F ops st).1
+  exact param_cached F p _ id v prm (by rw [hf]; exact hov) hp h
+
 /-- the todo placeholders of the tool's own configuration are what cmd/runner_builder overrides
 (regenerated shipped wiring): parameters version/buildInfo/inputPatterns/outputFile/stub and service writer -/
 theorem self_todo_wiring :
@@ -75,5 +116,15 @@ theorem self_todo_wiring :
       some "func:func() (interface{}, error) { return nil, errors.New(\"service todo\") }" ∧
     (Generated.wiring.lookup "inputValidator").map (·.2.1) = some ["%version%"] ∧
     (Generated.wiring.lookup "printer").map (·.2.1) = some ["@writer"] := by decide
+
+-- non-vacuity: a ranked two-level configuration; the history a, a, b runs each provider exactly once, in dependency order
+def demoParams : Prog :=
+  { out := { params := [{ name := "a", raw := .str "%b%x", code := "", dependsOn := ["b"] },
+                        { name := "b", raw := .int 1, code := "", dependsOn := [] }] },
+    imports := [], fns := [], env := [] }
+example : Ranked demoParams (fun n => if n = "a" then 1 else 0) := by
+  unfold Ranked
+  decide
+example : (runParams 10 demoParams {} ["a", "a", "b"]).evalLog = ["param:a", "param:b"] := by decide
 
 end GM.C15
